@@ -763,7 +763,7 @@ theorem index_in_cell (d step N i : ℕ) (hd : 1 ≤ d) (x0 : Int) (xs sk : List
   linarith
 
 /-- the numeric condition of `blind_rotation_correct` on the crate's circuit-bootstrapping key (`N = 256`, rank 2, 4 rows of radix `2^12`,
-52 bits, `n_lwe = 77` in 11 blocks, fresh key error `≤ 20` units of `2^-52`), worst case: the accumulated error is `≤ 2^46.2·2^-64 = 2^-17.8`, so
+52 bits, `n_lwe = 77` in 11 blocks, fresh key error `≤ 20` units of `2^-52`), worst case: the accumulated error is `≤ 2^47.2·2^-64 = 2^-16.8`, so
 a table encoded at `2^-13` (row 0 of the bootstrapped GGSW) decodes exactly, one encoded at `2^-26` (row 1) is not covered by the
 worst-case bound (the measured error is far smaller: evidence field `blind_noise`). -/
 theorem blind_condition_test_params :
